@@ -1,6 +1,7 @@
 package main
 
 import (
+	"context"
 	"fmt"
 	"strings"
 	"time"
@@ -8,6 +9,7 @@ import (
 	"github.com/fluffle/goirc/client"
 
 	"verif/harness/drv"
+	"verif/harness/memconn"
 )
 
 func init() {
@@ -15,6 +17,7 @@ func init() {
 }
 
 func c18(c *Ctx) {
+	c18StalePings(c)
 	var cases []Case
 	servers := []string{"irc.test", "irc.test:7000", "10.0.0.1", "10.0.0.1:6660", "[::1]:6667", "host-name.example.org"}
 	nicks := []string{"me", "Nick|away", "n"}
@@ -230,4 +233,70 @@ func c18(c *Ctx) {
 		}
 	}
 	c.RunCases(cases)
+}
+
+// c18StalePings: "PINGs of its own periodically exactly when PingFreq is positive" holds per connection. A first session
+// with keep-alive on ends badly - the peer has stopped reading, the output queue is full, keep-alive PINGs have come due
+// and are stuck behind it, the context is cancelled, the socket takes a moment to close - and then the same client, with
+// PingFreq now 0, connects again: nothing of the first session's keep-alive may show on the second connection.
+func c18StalePings(c *Ctx) {
+	for round := 0; round < c.Pick(2, 6); round++ {
+		desc := "keep-alive on (10 ms), peer stalled with the queue full and PINGs due, context cancelled, slow socket close; then PingFreq = 0 and the same client reconnects"
+		c.Journal("C18 " + desc)
+		url, conns := memconn.Listen()
+		cfg := client.NewConfig("me", "ident", "Real")
+		cfg.Server, cfg.Proxy, cfg.Flood, cfg.PingFreq, cfg.Timeout = "irc.test", url, true, 10*time.Millisecond, 3*time.Second
+		conn := client.Client(cfg)
+		disc := make(chan struct{}, 4)
+		conn.HandleFunc(client.DISCONNECTED, func(*client.Conn, *client.Line) { disc <- struct{}{} })
+		ctx, cancel := context.WithCancel(context.Background())
+		if err := conn.ConnectContext(ctx); err != nil {
+			cancel()
+			c.Res.Inconclusive++
+			continue
+		}
+		srv := <-conns
+		srv.WaitLines(2, 2*time.Second)
+		srv.GateWrites() // no tokens are ever handed out: the peer has stopped reading
+		srv.SetCloseDelay(5 * time.Millisecond)
+		go func() {
+			for i := 0; i < 50; i++ {
+				conn.Raw(fmt.Sprintf("PRIVMSG #c :filler %d", i))
+			}
+		}()
+		time.Sleep(80 * time.Millisecond)
+		cancel()
+		select {
+		case <-disc:
+		case <-time.After(10 * time.Second):
+			c.SpecFail("spec", desc, "", "the first connection did not end within 10 s of the cancellation", map[string]interface{}{"op": "stale-pings"})
+			continue
+		}
+		conn.Config().PingFreq = 0
+		if err := conn.Connect(); err != nil {
+			c.Res.Inconclusive++
+			continue
+		}
+		var srv2 *memconn.Conn
+		select {
+		case srv2 = <-conns:
+		case <-time.After(3 * time.Second):
+			c.Res.Inconclusive++
+			continue
+		}
+		time.Sleep(300 * time.Millisecond)
+		pings := 0
+		for _, l := range srv2.Lines() {
+			if strings.HasPrefix(l, "PING :") {
+				pings++
+			}
+		}
+		conn.Close()
+		c.Res.Traces++
+		c.Res.Evaluations++
+		c.Dist("stale-pings")
+		if pings > 0 {
+			c.SpecFail("spec", desc, "", fmt.Sprintf("%d keep-alive PINGs on the second connection within 300 ms although PingFreq is 0", pings), map[string]interface{}{"op": "stale-pings", "wire": srv2.Lines()})
+		}
+	}
 }
